@@ -506,6 +506,21 @@ for _f in sorted(_glob.glob("/verif/selftest/variants/b2/C*-b2-*.diff")):
     for _p in [_own] + _CROSS2.get(_name, []):
         case(_p, _p + "-agent-" + _name, "benign", "agent refactoring (round 2) " + _name + ": " + _desc, patch="selftest/variants/b2/" + _name + ".diff")
 
+_CROSS3 = {
+    "C01-b3-2": ["C03", "C20"], "C05-b3-3": ["C07"], "C08-b3-3": ["C03", "C06", "C07", "C10", "C20"],
+    "C09-b3-2": ["C03", "C07", "C08", "C20"], "C12-b3-2": ["C10"], "C17-b3-2": ["C12"], "C02-b3-4": ["C06", "C14"],
+}
+for _f in sorted(_glob.glob("/verif/selftest/variants/b3/C*-b3-*.diff")):
+    _name = os.path.basename(_f)[:-5]
+    _own = _name.split("-")[0]
+    _desc = ""
+    try:
+        _desc = (json.load(open(_f[:-5] + ".json")).get("summary") or "")[:140].replace("\n", " ")
+    except Exception:
+        pass
+    for _p in [_own] + _CROSS3.get(_name, []):
+        case(_p, _p + "-agent-" + _name, "benign", "agent refactoring (round 3) " + _name + ": " + _desc, patch="selftest/variants/b3/" + _name + ".diff")
+
 for _f in sorted(_glob.glob("/verif/selftest/variants/b/C*-b*.diff")):
     _name = os.path.basename(_f)[:-5]
     _own = _name.split("-")[0]
